@@ -641,6 +641,9 @@ class Scan(Generic[Carry, Y], GenerativeFunction[tuple[Carry, Y]]):
         args: tuple[Any, ...],
     ) -> tuple[Score, Any]:
         (carry, scanned_in) = args
+        if self._static_scan_length(scanned_in, self.length) == 0:
+            # A zero-length scan makes no choices (its trace's choice map is empty).
+            return jnp.zeros(()), self.__abstract_call__(*args)
 
         def _assess(carry, scanned_in):
             idx, carried_value = carry
